@@ -117,6 +117,9 @@ def cells_formula(tier):
             for Cc in (2, 3):
                 for variant in (0, 1):
                     yield ("F", loss, N, Cc, variant)
+                if loss in ("softmax_crossentropy", "softmax_focal_loss") and N >= 2:
+                    yield ("F", loss, N, Cc, 2)  # rows whose logits are 1000 apart from each other (each row by itself is ordinary)
+                    yield ("F", loss, N, Cc, 3)  # the same in float32 (rows 150 apart)
 
 
 def cells(tier):
@@ -420,8 +423,16 @@ def check_formula(cell):
     # ---- losses
     _, loss, N, Cc, variant = cell
     X = vals((N, Cc), 1 + variant)
+    tol = 1e-10
+    if variant in (2, 3):
+        X = vals((N, Cc), 1) + np.arange(N)[:, None] * (1000.0 if variant == 2 else 150.0)
+        if variant == 3:
+            X, tol = X.astype(np.float32), 1e-5
+        variant = 0
     y = np.array([(i + variant) % Cc for i in range(N)])
-    lsm = np.array([[X[i, j] - math.log(sum(math.exp(X[i, k]) for k in range(Cc))) for j in range(Cc)] for i in range(N)])
+    # log-softmax per row, written with the row maximum taken out of numerator and denominator (same quotient)
+    rmax = [max(float(X[i, k]) for k in range(Cc)) for i in range(N)]
+    lsm = np.array([[float(X[i, j]) - rmax[i] - math.log(sum(math.exp(float(X[i, k]) - rmax[i]) for k in range(Cc))) for j in range(Cc)] for i in range(N)])
     if loss == "softmax_crossentropy":
         out = Lo.softmax_crossentropy(mg.tensor(X), y)
         ref = -sum(lsm[i, y[i]] for i in range(N)) / N
@@ -455,7 +466,7 @@ def check_formula(cell):
         else:
             out = Lo.softmax_focal_loss(mg.tensor(X), y, alpha=alpha, gamma=gamma)
         ref = np.array([-alpha * (1 - sm[i, y[i]]) ** gamma * math.log(sm[i, y[i]]) for i in range(N)])
-    return None if close(out.data, ref, 1e-10) else ("value", "%s: got %s, formula gives %s" % (loss, out.data, ref))
+    return None if close(out.data, ref, tol) else ("value", "%s: got %s, formula gives %s" % (loss, out.data, ref))
 
 
 def check(cell):
